@@ -1,6 +1,6 @@
 Require Import Extraction ExtrOcamlBasic.
 From CrabV Require Import Base.ZInf Scalar.Itv Ir.Syntax Dom.ItvEnv Dom.ItvSolver Dom.ItvDomain
-     Dom.History Fix.Thresholds Dom.ArraySmash Dom.ArrayAdaptCore.
+     Dom.History Fix.Thresholds Dom.ArraySmash Dom.ArrayAdaptCore Dom.ArrayAdapt.
 Extraction Language OCaml.
 Set Extraction KeepSingleton.
 Extraction "../ocaml/gen/arrays_model.ml"
@@ -15,4 +15,6 @@ Extraction "../ocaml/gen/arrays_model.ml"
   ArrayAdaptCore.om_get_overlap_sym ArrayAdaptCore.om_join ArrayAdaptCore.om_meet ArrayAdaptCore.om_leq
   ArrayAdaptCore.can_be_smashed ArrayAdaptCore.covers_all_offsets
   ArrayAdaptCore.params ArrayAdaptCore.astate ArrayAdaptCore.store_decide ArrayAdaptCore.load_decide
-  ArrayAdaptCore.store_shape ArrayAdaptCore.load_shape ArrayAdaptCore.as_join ArrayAdaptCore.as_meet.
+  ArrayAdaptCore.store_shape ArrayAdaptCore.load_shape ArrayAdaptCore.as_join ArrayAdaptCore.as_meet
+  ArrayAdapt.pv ArrayAdapt.adom ArrayAdapt.a_top ArrayAdapt.a_is_bottom ArrayAdapt.a_is_top ArrayAdapt.a_at
+  ArrayAdapt.a_leq ArrayAdapt.am_find ArrayAdapt.gh_hasc ArrayAdapt.dget ArrayAdapt.dstep.
